@@ -140,7 +140,32 @@ def h_bytes(ctx, charset, nextra):
         ctx.check("a file whose tags are damaged by extra bytes (misspelled tag, text after an end tag) never yields a tree", root is None)
 
 
-HARNESSES = dict(tokens=h_tokens, truncate=h_truncate, bytes=h_bytes)
+def h_long_stray(ctx, total):
+    """a body of several thousand characters, one element per line: stray text after an end tag (at the start of the next line), or a
+    deleted aggregate end tag, near a power-of-two offset or anywhere else, is refused just as in a short body"""
+    boundary = ctx.choice("boundary", [4096, 8192] if total < 17000 else [4096, 8192, 16384])
+    unit = len("<A><B>0000000000</B></A>\r\n")
+    k = (boundary - len("<OFX>\r\n")) // unit
+    j = k + ctx.choice("line", [-1, 0, 1, 2])
+    damage = ctx.choice("damage", ["stray text", "end tag deleted", "end tag misspelled"])
+    stray = ctx.str("x", 1, [(0x21, 0x3B), (0x3D, 0x7E)])
+    n = total // unit
+    parts = []
+    for i in range(n):
+        line = "<A><B>%010d</B></A>\r\n" % i
+        if i == j and damage == "end tag deleted":
+            line = "<A><B>%010d</B>\r\n" % i
+        if i == j and damage == "end tag misspelled":
+            line = "<A><B>%010d</B></AA>\r\n" % i
+        if i == j + 1 and damage == "stray text":
+            line = stray + line
+        parts.append(line)
+    text = "<OFX>\r\n" + "".join(parts) + "</OFX>"
+    out = parse(ctx, text)
+    ctx.check("a body whose aggregate tags are not properly nested and closed never yields a tree", out is None)
+
+
+HARNESSES = dict(tokens=h_tokens, truncate=h_truncate, bytes=h_bytes, long_stray=h_long_stray)
 
 META = dict(
     bounds=dict(tokens="sequences of <= 5 (quick) / 6 (thorough) tokens; kind symbolic over open/close/data/blank; names symbolic over 3",
@@ -161,6 +186,8 @@ def instances(tier, seed):
     for sh in (["2", "3a", "3b"] if not full else list(SHAPES)):
         out.append(dict(name=f"truncate[{sh}]", harness="truncate", fn=h_truncate, params=dict(shape=sh, datalen=1 if not full else [1, 2]),
                         opts=dict(wall_s=600 if not full else 3000, max_paths=200000)))
+    for total in ((9000,) if not full else (9000, 20000)):
+        out.append(dict(name=f"long_stray[{total}]", harness="long_stray", fn=h_long_stray, params=dict(total=total), opts=dict(wall_s=900, max_paths=5000)))
     for cs in ("1252", "NONE", "ISO-8859-1"):
         for k in ((1,) if not full else (1, 2)):
             out.append(dict(name=f"bytes[{cs},{k}]", harness="bytes", fn=h_bytes, params=dict(charset=cs, nextra=k), opts=dict(wall_s=600, max_paths=100000)))
